@@ -196,6 +196,12 @@ template <class View> void touch_all(View const& v) {
     for (auto it = v.rbegin(); it != v.rend(); ++it) { acc = *it; }
     for (int y = 0; y < v.height(); ++y) for (auto it = v.row_end(y); it != v.row_begin(y);) { --it; acc = *it; *it = acc; }
     for (int x = 0; x < v.width(); ++x) for (auto it = v.col_end(x); it != v.col_begin(x);) { it--; acc = *it; }
+    // random-access jumps backwards that land on the first pixel of a row, from the end and from every row start
+    if (v.width() > 0 && v.height() > 0) {
+        long w = (long)v.width(), n = w * (long)v.height();
+        for (long k = 1; k <= (long)v.height(); ++k) { auto it = v.end(); it -= k * w; acc = *it; *it = acc; auto jt = v.end() - k * w; acc = *jt; }
+        for (long i = 0; i < n; ++i) for (long j : {0L, (i / w) * w, i > 0 ? i - 1 : 0L}) { auto it = (v.begin() + i) + (j - i); acc = *it; }
+    }
     (void)acc;
 }
 
@@ -314,8 +320,9 @@ template <class Img, int MAXD> void kind_images() {
     using K = Kind<Img>;
     KindInfo ki = K::info();
     int N = A->thorough() ? 5 : 4;
-    std::vector<int> aligns = A->thorough() ? std::vector<int>{0, 1, 2, 4, 8, 16, 32} : std::vector<int>{0, 1, 4, 16};
+    std::vector<int> aligns = A->thorough() ? std::vector<int>{0, 1, 2, 3, 4, 5, 6, 7, 8, 12, 16, 32} : std::vector<int>{0, 1, 3, 4, 12, 16};      // (alignments need not be powers of two)
     for (int w = 0; w <= N; ++w) for (int h = 0; h <= N; ++h) for (int al : aligns) {
+        if (al > 1 && al % (int)alignof(typename Img::value_type) != 0) continue;      // a row alignment that misaligns the channel type itself is the caller's error
         if (!mine()) continue;
         if (!A->thorough() && al != 0 && (w + h) % 2 == 1 && w * h > 4) continue;      // quick: thin out aligned shapes
         J("Try").str("kind", ki.name).num("w", w).num("h", h).num("align", al).emit();
@@ -330,11 +337,11 @@ template <class Img, int MAXD> void kind_images() {
                 { Img as(1, 1); as = img; one_image<Img, 1>(as, "assign", al, rng); }
                 { Img rc(w, h, (std::size_t)al); rc.recreate(w + 1, h + 2, (std::size_t)al); one_image<Img, 1>(rc, "recreate_grow", al, rng);
                   rc.recreate(w, h, (std::size_t)al); one_image<Img, 1>(rc, "recreate_shrink", al, rng);
-                  int al2 = al == 0 ? 8 : al == 32 ? 4 : al * 2;
+                  int al2 = al == 0 ? 8 : al >= 16 ? 4 : al * 2;
                   rc.recreate(w, h, (std::size_t)al2); one_image<Img, 1>(rc, "recreate_realign", al2, rng);
                   rc.recreate(w + 2, h + 1, (std::size_t)al2); one_image<Img, 1>(rc, "recreate_realign_grow", al2, rng); }
                 // the overloads that take a fill value (and the point_t spellings)
-                { typename Img::value_type fv{}; int al2 = al == 0 ? 16 : al == 32 ? 2 : al * 2;
+                { typename Img::value_type fv{}; int al2 = al == 0 ? 16 : al >= 16 ? (alignof(typename Img::value_type) == 1 ? 3 : 4) : al * 2;
                   Img rf(w + 1, h + 1, (std::size_t)al); rf.recreate(w, h, fv, (std::size_t)al2); one_image<Img, 1>(rf, "recreatefill_realign_shrink", al2, rng);
                   rf.recreate(typename Img::point_t(w + 1, h + 2), fv, (std::size_t)al2); one_image<Img, 1>(rf, "recreatefill_grow", al2, rng);
                   rf.recreate(typename Img::point_t(w, h), fv, (std::size_t)al); one_image<Img, 1>(rf, "recreatefill_shrink", al, rng);
